@@ -283,6 +283,48 @@ CLAIMED["C01"] = (
 
 NOT_YET = {}
 
+# additions made after the seeded-change rounds (DESIGN §14.5); appended to the level text
+ADDENDA = {
+    "C01": "Also: the Mem.tla wrapper model (MaybeUninit / ManuallyDrop / NonNull), zero-sized Drop elements in the "
+           "ownership replay, width-edge UTF-8 characters in the Split / StrIndex vectors.",
+    "C02": "Chunk / array sizes N in {1..8,10,12} with lengths up to 25, first_mut / last_mut / split_first_mut / "
+           "split_last_mut included.",
+    "C03": "A second string family over the characters at the ends of every encoded width (lead bytes 7F C2 DF E0 ED EE "
+           "EF F0 F4, continuation bytes 80 and BF).",
+    "C04": "Pair families with byte-anagram characters and width-edge characters; recorded calls also use char patterns, "
+           "needles of 7..65 bytes with near misses, and one-byte needles in 8..40-byte haystacks over bytes differing in "
+           "one bit.",
+    "C05": "Pattern families with byte-anagram and width-edge characters; recorded calls with patterns of 7..65 bytes "
+           "and 8..40 repetitions.",
+    "C06": "Self-overlapping delimiters of three bytes and an empty/width-edge-character family in the model; recorded "
+           "histories with delimiters of 5..12 bytes at the start / end and as near misses.",
+    "C07": "Recorded strings with ASCII runs of 7..64 bytes and a wide character near either end; from_u32 on every "
+           "power of two from 2^21 and on scalar values with high bits added.",
+    "C08": "Sizes standing for isize::MAX / usize::MAX (invariant ArithInv: no intermediate exceeds the length), "
+           "array_chunks N in {1,2,3,4,5,8,16}, and zero-sized slices of isize::MAX+1 / usize::MAX elements three steps deep "
+           "(lengths compared, projection guarded by std).",
+    "C10": "The flatten adapter (map-to-range then flatten) is part of the grammar.",
+    "C11": "collect_const! over every depth-2 adapter chain of IterDsl.tla.",
+    "C13": "A second alphabet family (byte-sharing 3-byte characters, U+FFFF, U+07FF) and the parser_method! forms as "
+           "Parser actions; beyond the listed property the error kind and Display / panic text of every failing operation "
+           "are compared as extras (never a violation).",
+    "C14": "Same second alphabet family and parser_method! actions as C13.",
+    "C15": "The container behaviours are also replayed with a zero-sized Drop element type (counts); packed braced and "
+           "tuple structs are destructured inside const fn (unaligned field reads judged by the const evaluator).",
+    "C16": "Kind `record`: a user aggregate compared through impl_cmp! / try_equal! / coerce_to_cmp!; recorded slices of "
+           "9..80 elements.",
+    "C17": "14 parser_method! pattern kinds (4 literal-valued, 10 non-literal incl. range patterns that start with a "
+           "literal), &mut references and the generic type form of destructure!.",
+    "C18": "The macro forms are additionally applied to every state of a Parser.tla graph and compared on remainder, "
+           "offsets and direction.",
+    "C19": "min!/max!/_by/_by_key on every primitive type with four anchor values per type.",
+    "C20": "Pieces and separators of 7..17 bytes with a multi-byte character at the start / end / straddling byte 8.",
+}
+for _pid, _extra in ADDENDA.items():
+    _t = CLAIMED[_pid]
+    CLAIMED[_pid] = (_t[0], _t[1] + " " + _extra, _t[2], _t[3])
+
+
 def main():
     props = [json.loads(l) for l in open(os.path.join(HERE, "properties.jsonl"))]
     na_path = os.path.join(HERE, "lib", "not_applicable.json")
